@@ -450,6 +450,28 @@ class Harness:
         def V(clause, detail, observed, expected, op):
             viols.append({"key": f"{clause}:{detail}", "clause": clause, "case": {"op": op, "pre": self._relsnap(pre), "toggles": tog}, "observed": observed, "expected": expected})
 
+        # the shell runs BaseShell._fix_cwd() after every command: where $PWD already names the working
+        # directory (logically - it may contain a symlink) the repair has nothing to repair
+        try:
+            consistent = pre["cwd"] is not None and pre["PWD"] is not None and os.path.samefile(pre["PWD"], pre["cwd"])
+        except OSError:
+            consistent = False
+        if consistent:
+            from xonsh.shells.base_shell import BaseShell
+
+            BaseShell._fix_cwd(_DummyShell())
+            post = self.snap()
+            if post != pre:
+                changed = [k for k in ("cwd", "PWD", "OLDPWD", "stack") if post[k] != pre[k]]
+                V("prompt-repair-is-noop-when-pwd-names-cwd", "+".join(changed), self._relsnap(post), self._relsnap(pre), ["_fix_cwd"])
+                env = self.xsh.env
+                env["PWD"] = pre["PWD"]
+                if pre["OLDPWD"] is None:
+                    env.pop("OLDPWD", None)
+                else:
+                    env["OLDPWD"] = pre["OLDPWD"]
+                self.ds.DIRSTACK = list(pre["stack"])
+                os.chdir(pre["cwd"])
         # dirs never changes anything and prints the listing [PWD]+stack
         for a in DIRS_OBS:
             res = self.call(["dirs"] + a)
